@@ -58,6 +58,9 @@ def op_strategy():
         st.one_of(st.just(""), st.sampled_from(["rule title", "a<b", "漢字"])).map(lambda t: ["rule", t]),
         st.integers(0, 3).map(lambda n: ["line", n]),
         st.sampled_from(["bell", "clear", "hide_cursor", "show_cursor"]).map(lambda k: ["ctl", k]),
+        # a renderable that, while it is being rendered (after its first line), prints a child on the same console - inside a capture block of its own
+        # (to get the child as a string) or plainly
+        st.tuples(seg_text(), seg_text(), seg_text(), st.sampled_from(["capture", "capture", "print"])).map(lambda t: ["print", ["nested", t[0] or "first", t[1], t[2], t[3]]]),
     )
     # ["raise"] inside a capture block: a print whose renderable raises; the program handles the exception and goes on
     cap = st.lists(st.one_of(p, p, p, st.just(["raise"])), min_size=0, max_size=4).map(lambda ps: ["capture", ps])
@@ -80,12 +83,34 @@ class Raises:
         raise UserError("renderable failed")
 
 
+class Nested:
+    """Yields a line, prints a child on the same console (captured or not), yields another line."""
+
+    def __init__(self, first, child, last, mode):
+        self.first, self.child, self.last, self.mode = first, child, last, mode
+        self.captured = []
+
+    def __rich_console__(self, console, options):
+        from rich.text import Text
+
+        yield Text(self.first)
+        if self.mode == "capture":
+            with console.capture() as cap:
+                console.print(Text(self.child))
+            self.captured.append(cap.get())
+        else:
+            console.print(Text(self.child))
+        yield Text(self.last)
+
+
 def make_printable(x):
     from rich.text import Text
     from rich.table import Table
     from rich.panel import Panel
 
     k = x[0]
+    if k == "nested":
+        return Nested(*x[1:5]), {}
     if k == "text":
         return Text.assemble(*[(t, GS.build_style(s)) if s else t for t, s in x[1]]), {}
     if k == "markup":
@@ -113,7 +138,7 @@ class Histories(Part):
     name = "histories"
     rule = ("console config (colour system None/standard/256/truecolor, force_terminal, width 20..120, no_color) x <= 25 ops over print(Text with styles and "
             "links | markup | plain text with < > & quotes and template-like tokens ({stylesheet}, {{, %s) | table | panel; optionally with end/style/soft_wrap/crop/justify/no_wrap), "
-            "out(strings, sep, end, style), log, rule, line(n), bell/clear/cursor, capture{1-3 prints}, export_text(clear, "
+            "out(strings, sep, end, style), print of a renderable that prints a child on the same console while it is rendered (captured or not), log, rule, line(n), bell/clear/cursor, capture{1-3 prints}, export_text(clear, "
             "styles), export_html(clear, inline_styles); non-trivial = >= 2 prints with different adjacent styles, a control op followed by an unstyled "
             "line, and both a clearing and a non-clearing export")
     budget = {"quick": (16, 500), "thorough": (16, 6000)}
@@ -166,6 +191,7 @@ class Histories(Part):
         exports = set()
 
         def emit(c, x, via="print", tick=0, opts=None):
+            nonlocal suspended
             if x == ["raise"]:
                 if c is con:
                     try:
@@ -183,6 +209,18 @@ class Histories(Part):
                 for a, b in (opts or {}).items():
                     kw[a] = GS.build_style(b) if a == "style" else b
                 sut(c.print, r, **kw)
+                if isinstance(r, Nested):
+                    ctx.cls("print-from-inside-a-render-" + r.mode)
+                    if r.mode == "capture" and c is con:
+                        from rich.text import Text
+
+                        suspended = True   # the captured child is in the record but never reaches the file (assumption 10)
+
+                        alone, af = mk(False)
+                        sut(alone.print, Text(r.child))
+                        if r.captured != [af.getvalue()]:
+                            ctx.violation("capture", "C15/capture/nested", "a renderable captured its child %r while being rendered (after its first line %r): the capture returned %r, the child alone prints as %r" % (
+                                r.child, r.first, r.captured, af.getvalue()))
             else:
                 clock["t"] += 0
                 sut(c.log, r, **kw)
